@@ -127,8 +127,8 @@ PROPS = {
     },
     "C20": {
         "functions": ["cgi::response::simple_redirect", "cgi::response::write_headers"],
-        "bounds": "redirect: location 0..6 symbolic ASCII bytes, capacity 0..24; headers: status 200 / 404 / 999 (custom reason) with 0..2 headers of 0..3 symbolic bytes each, capacity 0..64 (thorough: every status 100..999 without headers)",
-        "outside": "header names/values longer than 3 bytes, more than 2 headers; http_headers (delegates); Vec writer (cannot fail)",
+        "bounds": "redirect: location 0..6 symbolic ASCII bytes, capacity 0..24; headers: status 200 / 404 / 999 (custom reason) with 0..2 headers of 0..3 symbolic bytes each, capacity 0..64, every status 100..999 without headers; length-abstract instances (harness writer that counts accepted bytes and records the byte at one symbolic offset): status 200 with two headers of 0..320-byte names and values (symbolic lengths and contents, room 0..1400), redirect location 0..320 bytes (room 0..400)",
+        "outside": "names/values/locations longer than 320 bytes, more than 2 headers; the length-abstract instances compare the content at one symbolic offset, which the solver decides for every offset (output differs from the grammar iff it differs at some offset), and use status 200 only; http_headers (delegates); Vec writer (cannot fail)",
         "assumptions": [E8],
         "level_text": "Bounded model checking: output and returned count equal the documented grammar byte for byte, and Err <=> capacity < length for every capacity.",
         "level_note": "http::StatusCode::{as_str,canonical_reason} are trusted (third-party).",
